@@ -77,6 +77,18 @@ def box_html(box):
     return f'<div id="n{box["id"]}" style="{css_of(box["st"], "block")}">{inner}</div>'
 
 
+def page_css(doc):
+    """`pageH` is the height of the page's *content* box (what the model calls the page bottom); optional integer
+    keys `pagePB` / `pageBB` give the page box a bottom padding / border, which enlarge the page, not its content."""
+    pad, border = doc.get('pagePB', 0), doc.get('pageBB', 0)
+    css = f'size:200px {px(doc["pageH"] + pad + border)};margin:0'
+    if pad:
+        css += f';padding-bottom:{pad}px'
+    if border:
+        css += f';border-bottom:{border}px solid'
+    return css
+
+
 def doc_html(doc):
     root = doc['root']
     body = root['kids'][0]
@@ -84,7 +96,7 @@ def doc_html(doc):
     direction = 'ltr' if doc['ltr'] else 'rtl'
     return (
         f'<html id="n{root["id"]}" style="direction:{direction};{css_of(root["st"], "block")}"><head><style>'
-        f'@page{{size:200px {px(doc["pageH"])};margin:0}}</style></head>'
+        f'@page{{{page_css(doc)}}}</style></head>'
         f'<body id="n{body["id"]}" style="{css_of(body["st"], "block")}">{inner}</body></html>')
 
 
@@ -452,3 +464,22 @@ def spacer_docs():
         if tail:
             kids.append(para_box(1))
         yield f'spacer-k{k}-h{height}-mt{mt}-mb{mb}-{shape}-t{int(tail)}', make_doc(100, kids)
+
+
+def page_decoration_docs():
+    """Pages whose @page rule has a bottom padding and / or border: the content area ends above them, so lines,
+    unbreakable blocks and fragmented boxes are cut at the bottom of the page *content box* (page.py make_page:
+    context.page_bottom), exactly as on a page of that content height without decoration (same model document)."""
+    import itertools
+    for pad, border, n, shape in itertools.product((0, 6, 15), (0, 4), (7, 12), ('lines', 'padded', 'fixed')):
+        if not (pad or border):
+            continue
+        if shape == 'lines':
+            kids = [para_box(n), para_box(3)]
+        elif shape == 'padded':
+            kids = [block_box([para_box(n)], pb=4, bb=1), para_box(3)]
+        else:
+            kids = [para_box(n - 3), block_box(height=25, pt=3), para_box(3)]
+        doc = make_doc(50, kids)
+        doc['pagePB'], doc['pageBB'] = pad, border
+        yield f'pagedeco-pb{pad}-bb{border}-n{n}-{shape}', doc
